@@ -193,6 +193,7 @@ func (l *leader) addReplication(n Node) {
 		prevLogTerm:    l.lastLogTerm,
 	}
 
+	verifSpawn(l.Raft, "repl")
 	l.wg.Add(1)
 	go func() {
 		defer l.wg.Done()
